@@ -238,6 +238,22 @@ fn history<T: Elem + std::fmt::Debug>(ops: &[(u8, u8)], rng: &mut Rng, rep: &mut
                             dropped_expected.push(e.key());
                         }
                     }
+                    // clone_from into a destination that is longer / shorter than the source: afterwards it is the source's twin
+                    {
+                        let extra = (arg % 5) as usize;
+                        let mut dst: CVec<T> = CVec::from((0..extra).map(|_| T::make(rng)).collect::<Vec<T>>());
+                        dst.clone_from(&v);
+                        trace.push(format!("clone_from into len {}", extra));
+                        if dst.len() != v.len() {
+                            fail!("C11:clone-shape", format!("clone_from: destination has {} elements, source {}", dst.len(), v.len()));
+                        }
+                        for (i, e) in dst.iter().enumerate() {
+                            if !T::clone_matches(model[i], e) {
+                                fail!("C11:clone-content", format!("clone_from: element {} does not derive from original {}", i, model[i]));
+                            }
+                        }
+                        drop(dst);
+                    }
                     drop(c);
                 }
             }
